@@ -15,10 +15,12 @@ def run(ctx):
         xt = roles(ctx, v).exit
         g = cfg_of(xt.node)
         rec = self_calls_in(xt, "_record_history")
-        c.floor("R1", f"_record_history call in {xt.short}", len(rec), 1)
+        if not rec:
+            c.ob("R1", False, xt, "record-before-discard",
+                 f"{xt.short} never calls _record_history: leaving a state that owns a history child forgets where it was", xt.node)
+            continue
         recn = [n for call in rec for n in cfg_node_of(xt, call)]
-        discards = [n for x in own_nodes(xt.node) if isinstance(x, ast.Call) and isinstance(x.func, ast.Attribute)
-                    and x.func.attr in ("discard", "remove") and CONFIG_ATTR in norm(x.func.value) for n in cfg_node_of(xt, x)]
+        discards = shared.config_op_nodes(ctx, v, xt, {"call:discard", "call:remove"})
         acts = [n for call in self_calls_in(xt, "_execute_actions") for n in cfg_node_of(xt, call)]
         ok = all(g.always_before(recn, d, follow_exc=False) for d in discards + acts) and not any(enclosing_loops(xt, call) for call in rec)
         c.ob("R1", ok, xt, "record-before-discard", "history is recorded once, before any exit action or discard" if ok else
